@@ -270,6 +270,12 @@ func (h *Hist) expectedErr(op *Op, pre *ref.Model, lay Layout, res *OpResult) bo
 	}
 	cls := errClass(res.Err)
 	switch op.Kind {
+	case "publish":
+		// a batch holding a message beyond the format's size bound is refused (as a whole: the model
+		// is left unchanged, the following observations and publishes show whether the log was too)
+		if op.TooBig > 0 && strings.Contains(errText(res.Err), "message too big") {
+			return true
+		}
 	case "delete":
 		neg := false
 		for _, o := range op.Offsets {
@@ -1268,6 +1274,11 @@ func (h *Hist) observeC10() {
 		h.cov.Add("evaluations", 1)
 		if f := getByTimeCell(h.log, m, t); f != nil {
 			f.Sig += ":" + h.timeClass(t, lay)
+			if h.everPreEpoch {
+				// state predicate of finding D20: the running maximum that the time index stores
+				// starts at 0, so every message time before 1970-01-01 is indexed as 0
+				f.Sig = "time-lookup:pre-epoch(message times before 1970 are indexed as 0)"
+			}
 			h.fail(f)
 			return
 		}
@@ -1886,6 +1897,20 @@ func (h *Hist) dirtySinceBackup() bool {
 		case "backup":
 			return false
 		case "publish", "sync", "stat", "gc":
+		case "reopen":
+			// a close/reopen leaves the log "only appended to" unless it rewrites segments (migration)
+			// or swaps the directory; removing index files (derived data) is allowed on purpose: the
+			// next backup then meets segments whose index file is missing in the source but present,
+			// and stale, in the target
+			o := h.ops[i]
+			if len(o.CrashDel) > 0 || (o.Opts != nil && o.Opts.Eager) {
+				return true
+			}
+			for _, c := range o.Closed {
+				if strings.HasPrefix(c.Kind, "migrate") {
+					return true
+				}
+			}
 		default:
 			return true
 		}
